@@ -436,6 +436,16 @@ theorem fingerprinted_hostname_string (puny : Str → Str) (hpc : PunyClean puny
       | nil => rfl
       | cons a b => rfl
 
+/-- `fingerprinted_hostname_string` under the name of the component-level family: the `_model`
+version of `fingerprinted_hostname_agrees` (`E := stringEnv`; `hp`, `hsame`, `hclean`, `hacc`,
+`hhost`, `hw` all discharged on the class; compared with the host READ OFF THE RESULT STRING) -/
+theorem fingerprinted_hostname_agrees_model (puny : Str → Str) (hpc : PunyClean puny) (hpl : PunyLower puny)
+    (trie : SNode Str) (sfx : Bool) {g : UrlG} {po : Option Nat} {u : Str}
+    (h : HostClass true g po (lower u)) (hplain : sfx = true → FpReparse.HostPlain g.host) :
+    (getFingerprintedHostname (stringEnv puny id trie) hostOfModel true sfx u).map orNone =
+      (fingerprintUrlString puny id trie sfx u).map (hostAfterEnsure hostOfModel) :=
+  fingerprinted_hostname_string puny hpc hpl trie sfx h hplain
+
 /-! ## bare hostnames -/
 
 /-- the grammar of a bare hostname: nothing but the host -/
